@@ -84,7 +84,7 @@ def run(rep, tier, rng):
             nfail += 1
             if nfail == 1:
                 calls = f["calls"]
-                wire = [("w", f["specs"][c[1]]) if c[0] == "w" else c for c in calls]
+                wire = [("w", f["specs"][c[1]]) if c[0] == "w" else (("w", c[1]) if c[0] == "x" else c) for c in calls]
                 rep.violation({"kind": "oracle", "what": msg, "case_kind": "whist", "case": C.whist_case(True, f["ending"], wire),
                                "file": f["specs"], "code": f["code"]})
         w = f["written"]
@@ -118,6 +118,9 @@ def run(rep, tier, rng):
                        "different bytes for the same layout", "case": ref_cases[(mism or vm)[0]]}, nofail=True)
     rep.sample({"type": files[0]["code"], "constructor_calls": files[0]["specs"][:2], "calls": files[0]["calls"]})
     rep.cov["oracle"] = {"files": len(files), "failing": nfail}
+    # files created by path (ShapeWriter::from_path), also at a path that already holds longer files and under dotted /
+    # upper-case names: what is left on disk must be exactly the well-formed bytes of the in-memory writer
+    P.path_situations(rep, files[:16 if tier != "thorough" else 48], "c02", with_reads=False)
     rep.assumptions += ["the whitepaper is transcribed twice, independently: Spec/Esri.v (Coq) and gen/refesri.py (Python); they "
                         "are compared byte for byte on every run",
                         "C02's theorem is stated for fault-free Cursor-like destinations (faults: C12)"]
